@@ -11,7 +11,7 @@ const VALID_SPEC: &str = r#"block "IF_DATA" taggedunion { "A" struct { int; tagg
 const INVALID_SPEC: &str = r#"block "IF_DATA" taggedunion { "A" struct { int; "#;
 
 pub fn step_budget(len: usize) -> u64 {
-    64 * len as u64 + 100_000
+    64 * len as u64 + 600_000
 }
 
 fn err_class(e: &a2lfile::A2lError) -> String {
@@ -121,7 +121,7 @@ pub const DEPTHS: [usize; 5] = [256, 1024, 4096, 16384, 65536];
 
 pub fn probe_input(idx: u64) -> Option<(String, String)> {
     // (label, text)
-    let kinds = 5u64;
+    let kinds = 9u64;
     let d = DEPTHS.get((idx / kinds) as usize)?;
     let (name, text) = match idx % kinds {
         0 => ("ifdata_begin", hostile::nested_ifdata(*d)),
@@ -140,11 +140,39 @@ pub fn probe_input(idx: u64) -> Option<(String, String)> {
                 hostile::nested_a2ml(*d, 1)
             )),
         ),
-        _ => (
+        4 => (
             "a2ml_array",
             hostile::wrap_module(&format!(
                 "/begin A2ML {} /end A2ML /begin IF_DATA 1 /end IF_DATA",
                 hostile::nested_a2ml(*d, 2)
+            )),
+        ),
+        5 => (
+            "a2ml_named_chain",
+            hostile::wrap_module(&format!(
+                "/begin A2ML {} /end A2ML /begin IF_DATA 1 /end IF_DATA",
+                hostile::named_chain_a2ml(*d, 1)
+            )),
+        ),
+        6 => (
+            "a2ml_structs_x_array_dims",
+            hostile::wrap_module(&format!(
+                "/begin A2ML {} /end A2ML /begin IF_DATA 1 /end IF_DATA",
+                hostile::structs_times_dims_a2ml((*d / 256).clamp(2, 255), 250)
+            )),
+        ),
+        7 => (
+            "a2ml_doubling_references",
+            hostile::wrap_module(&format!(
+                "/begin A2ML {} /end A2ML /begin IF_DATA 1 1 /end IF_DATA",
+                hostile::named_chain_a2ml(14 + (idx / kinds) as usize * 8, 2)
+            )),
+        ),
+        _ => (
+            "a2ml_array_of_empty_elements",
+            hostile::wrap_module(&format!(
+                "/begin A2ML block \"IF_DATA\" struct {{ taggedstruct {{ \"A\" uint; }}{}; }}; /end A2ML /begin IF_DATA /* nothing */ /end IF_DATA /begin IF_DATA x /end IF_DATA",
+                ["[65537]", "[1000000]", "[2147483647]", "[-1]", "[1000][1000][1000][1000]"][(idx / kinds) as usize]
             )),
         ),
     };
@@ -152,13 +180,13 @@ pub fn probe_input(idx: u64) -> Option<(String, String)> {
 }
 
 pub fn run(args: &Args, rec: &mut Recorder) {
-    rec.rule = "evaluation = one load call (load_from_string / load_fragment / load from a temp file) of a hostile input under the crash monitor, the logical step budget (64*bytes+100000 steps counted by the verif_hooks feature) and the allocation-peak monitor; distinct_nontrivial = distinct inputs by content hash that are not empty".into();
+    rec.rule = "evaluation = one load call (load_from_string / load_fragment / load from a temp file) of a hostile input under the crash monitor, the logical step budget (64*bytes+600000 steps counted by the verif_hooks feature) and the allocation-peak monitor; distinct_nontrivial = distinct inputs by content hash that are not empty".into();
     rec.assumptions.push("inputs up to 64 KiB (nesting probes up to 1.5 MiB); nesting depth <= 64 in random inputs, dedicated probes at depth 256..65536; 8 MiB stack".into());
     let g = Grammar::load_default();
     let scratch = scratch_dir(args);
     let mut srng = Rng::derive(&[args.seed, 0xC03, args.shard]);
     let seeds = Seeds::build(&g, &mut srng, if args.thorough { 40 } else { 12 });
-    let n_probes = (DEPTHS.len() * 5) as u64;
+    let n_probes = (DEPTHS.len() * 9) as u64;
     let n_random: u64 = if args.thorough { 10_000_000 } else { 300_000 };
     let total = n_probes + n_random;
     run_cases(args, rec, total, crate::util::reset_budget, |rng, case, rec| {
